@@ -343,6 +343,29 @@ Definition ConvertFFIEventDefinitionToABI (name : bytes) (params : list pin) : r
 Definition ConvertFFIErrorDefinitionToABI (name : bytes) (params : list pin) : res entry :=
   do i <- convertFFIParamsToABIParameters params; Ok (mkEntry EError name i []).
 
+(* The parameter lists as encoding/json decodes an interface definition: fftypes.FFIParams is a slice
+   of *FFIParam, and "params":[null] yields a nil entry.  The loop of convertFFIParamsToABIParameters
+   starts every iteration with `if param == nil { return nil, MsgInvalidFFIDetailsSchema }` (fix
+   a043493; before it, param.Name was a nil dereference).  [None] is a nil entry; on lists without
+   one these are the functions above ([Proofs: opt_params_some]). *)
+Fixpoint convertFFIParamsToABIParameters_opt (l : list (option pin)) : res (list fparam) :=
+  match l with
+  | [] => Ok []
+  | None :: _ => Err EInvalidDetails
+  | Some p :: r => do x <- convertFFIParam p; do xs <- convertFFIParamsToABIParameters_opt r; Ok (x :: xs)
+  end.
+
+Definition ConvertFFIMethodToABI_opt (name : bytes) (params returns : list (option pin)) : res entry :=
+  do i <- convertFFIParamsToABIParameters_opt params;
+  do o <- convertFFIParamsToABIParameters_opt returns;
+  Ok (mkEntry EFunction name i o).
+
+Definition ConvertFFIEventDefinitionToABI_opt (name : bytes) (params : list (option pin)) : res entry :=
+  do i <- convertFFIParamsToABIParameters_opt params; Ok (mkEntry EEvent name i []).
+
+Definition ConvertFFIErrorDefinitionToABI_opt (name : bytes) (params : list (option pin)) : res entry :=
+  do i <- convertFFIParamsToABIParameters_opt params; Ok (mkEntry EError name i []).
+
 (* ---------- signatures ---------- *)
 
 (* Entry.SignatureCtx (pkg/abi/abi.go) *)
